@@ -25,15 +25,40 @@ def units_table():
     return "\n".join(rows)
 
 def seeds_table():
-    rows = ["| seed | property | what it needs to manifest | verdict of `./check <property>` | obligation that fails |", "|---|---|---|---|---|"]
+    rows = ["| seed | property | what it breaks | verdict of `./check <property>` | obligation(s) that fail / why not |", "|---|---|---|---|---|"]
     for d in sorted(glob.glob(os.path.join(ROOT, "seeded", "*"))):
         m = json.load(open(os.path.join(d, "meta.json")))
         det = m.get("detected_by")
         if det:
-            verdict, obl = "VIOLATION (exit 1)", "`%s` (%s)" % (det.get("obligation"), det.get("unit"))
+            obls = det.get("obligations") or []
+            sweep = any("bounded sweep" in (o.get("how") or "") for o in obls)
+            verdict = "VIOLATION (exit 1)" + (", witness replayed" if det.get("witness") else ", no-failing-input-found")
+            if sweep:
+                verdict += "; unit undecided on the changed text, bounded sweep of the real code found the input"
+            obl = "; ".join("`%s` (%s)" % (o["tag"], o["unit"]) for o in obls[:2]) or "-"
         else:
-            verdict, obl = "not detected" + (" / exit 2" if "exit 2" in (m.get("note") or "") or "exits 2" in (m.get("note") or "") else ""), (m.get("note") or "no unit covers the changed function yet")
-        rows.append("| %s | %s | %s | %s | %s |" % (os.path.basename(d), m["property"], m["breaks"], verdict, obl))
+            lr = m.get("last_result") or {}
+            verdict = "not detected (exit %s)" % lr.get("exit", "?")
+            obl = (m.get("note") or ("; ".join(lr.get("undecided") or []) or "no unit covers the changed function yet"))
+        rows.append("| %s | %s | %s | %s | %s |" % (os.path.basename(d), m["property"], m["breaks"], verdict, obl.replace("|", "\\|")))
+    return "\n".join(rows)
+
+def props_table():
+    rows = ["| id | claimed | decided by (units) | what is proved | not decided (also in evidence) |", "|---|---|---|---|---|"]
+    units = {}
+    for p in sorted(glob.glob(os.path.join(ROOT, "units", "*.rs"))):
+        m = re.search(r"^//@unit\s+(\S+)\s+(.*)$", open(p).read(3000), re.M)
+        if m:
+            for pr in gen._parse_kv(m.group(2)).get("props", "").split(","):
+                units.setdefault(pr, []).append(m.group(1))
+    for f in sorted(glob.glob(os.path.join(ROOT, "propnotes", "C*.json"))):
+        pid = os.path.basename(f)[:-5]
+        d = json.load(open(f))
+        if d.get("claim"):
+            rows.append("| %s | yes | %s | %s | %s |" % (pid, ", ".join(units.get(pid, [])), (d.get("level_text") or "").replace("|", "\\|"),
+                                                      "; ".join(d.get("clauses_not_decided") or []).replace("|", "\\|")))
+        else:
+            rows.append("| %s | n/a | - | - | %s |" % (pid, (d.get("na_reason") or "").replace("|", "\\|")))
     return "\n".join(rows)
 
 def findings_table():
@@ -44,7 +69,7 @@ def findings_table():
         rows.append("| %s | %s | %s | %s | `%s` |" % (f["status"], f["property"], what.replace("|", "\\|"), f.get("commit") or f.get("call_site", ""), json.dumps(f.get("witness"))[:160].replace("|", "\\|")))
     return "\n".join(rows)
 
-gens = {"UNITS": units_table, "SEEDS": seeds_table, "FINDINGS": findings_table}
+gens = {"UNITS": units_table, "SEEDS": seeds_table, "FINDINGS": findings_table, "PROPS": props_table}
 p = os.path.join(ROOT, "DESIGN.md")
 s = open(p).read()
 for k, f in gens.items():
